@@ -11,13 +11,11 @@ import (
 	"testing"
 	"time"
 
-	quic "github.com/refraction-networking/uquic"
 	"github.com/refraction-networking/uquic/http3"
 	"github.com/refraction-networking/uquic/internal/verif/evlog"
 	"github.com/refraction-networking/uquic/internal/verif/quicworld"
 	"github.com/refraction-networking/uquic/internal/verif/simworld"
 	"github.com/refraction-networking/uquic/internal/verif/wiretap"
-	tls "github.com/refraction-networking/utls"
 )
 
 func c18RunPeerCase(r *c18PeerRun) {
@@ -53,9 +51,8 @@ func c18RunBothCase(r *c18PeerRun) {
 	srv := &http3.Server{Handler: h, Logger: lg}
 	serveDone := make(chan error, 1)
 	go func() { serveDone <- srv.ServeListener(w.Listener) }()
-	tr := &http3.Transport{Logger: lg, Dial: func(ctx context.Context, _ string, _ *tls.Config, _ *quic.Config) (*quic.Conn, error) {
-		return w.Dial(ctx)
-	}}
+	dialer := &c18Dialer{w: w}
+	tr := &http3.Transport{Logger: lg, Dial: dialer.dial}
 
 	// warm-up exchange so that the abort hits an established connection in most cases
 	if pc.C%2 == 0 {
@@ -159,6 +156,7 @@ func c18RunBothCase(r *c18PeerRun) {
 		time.Sleep(12 * time.Second)
 	}
 	tr.Close()
+	dialer.closeAll()
 	srv.Close()
 	select {
 	case <-serveDone:
